@@ -127,6 +127,8 @@ func (setup *SetupServerController) handlePairVerify(in util.Container) (util.Co
 
 	err := setup.session.SetupPrivateKeyFromClientPublicKey(clientPublicKey)
 	if err != nil {
+		// no shared secret was computed – the key exchange step must not be accepted
+		setup.reset()
 		return nil, err
 	}
 
